@@ -352,12 +352,18 @@ def gen_request (rng, xid):
                command=cmd, idle_timeout=rng.choice([0, 0, 0, 5]),
                hard_timeout=rng.choice([0, 0, 0, 5]),
                priority=rng.choice([1, 2, 0x8000]), buffer_id=0xffffffff,
-               out_port=rng.choice([0xffff, 0xffff, 2]) if cmd in (3, 4) else 0xffff,
+               out_port=rng.choice([0xffff, 0xffff, 2, 0xfffd, 0xfffb]) if cmd in (3, 4) else 0xffff,
                # (the emergency flag only with ADD: what it means on the other
                #  commands is not settled)
                flags=rng.choice([0, 0, 1, 2, 3, 4, 5, 6, 7] if cmd == 0 else [0, 0, 1, 2, 3]),
+               # (entries that output to reserved ports too: the out_port
+               #  filters of delete and of the statistics requests name those
+               #  like any other port)
                actions=rng.choice([[], [dict(type=0, port=2, max_len=0)],
-                                   [dict(type=0, port=3, max_len=0)]]))
+                                   [dict(type=0, port=3, max_len=0)],
+                                   [dict(type=0, port=0xfffd, max_len=64)],
+                                   [dict(type=0, port=2, max_len=0),
+                                    dict(type=0, port=0xfffb, max_len=0)]]))
   if r < 0.76:
     k = rng.random()
     acts = rng.choice([[dict(type=0, port=2, max_len=0)],
@@ -382,7 +388,8 @@ def gen_request (rng, xid):
   if t == 0 or t == 3: body = {}
   elif t in (1, 2):
     body = dict(match=rng.choice(MATCHES), table_id=rng.choice([0xff, 0xff, 0, 1, 5]),
-                out_port=rng.choice([0xffff, 0xffff, 2, 3]))
+                out_port=rng.choice([0xffff, 0xffff, 2, 3, 0xfffd, 0xfffb, 0xfffc,
+                                     0xfff8, 0xfffe, 0xff00]))
   elif t == 4: body = dict(port_no=rng.choice([0xffff, 1, 2, NPORTS, NPORTS + 1, 0]))
   elif t == 5:
     body = dict(port_no=rng.choice([0xfffc, 1, NPORTS + 1]),
